@@ -44,7 +44,18 @@ def main():
         bad = program.dynamic_constructs()
         if bad:
             raise AnalysisError("dynamic constructs make the call graph unsound: " + "; ".join(bad[:5]))
-        mod.run(report, program)
+        try:
+            mod.run(report, program)
+        except AnalysisError as e:
+            # a violation established by one rule stands even if a later rule cannot interpret the code: report it (exit 1),
+            # and mention the part that was not analysed; without an established violation this stays an analysis error
+            from sa.rules import load_known
+
+            open_keys = {k["key"] for k in load_known().get("open", []) if k.get("property") == prop}
+            if not any(f.key not in open_keys for r in report.rules for f in r.findings):
+                raise
+            print(f"ANALYSIS-NOTE property={prop} not everything could be analysed ({e}); the violations found before that point follow")
+            return mod.finish(report) or 2
         if a.explain:
             want = json.load(open(a.explain))["key"]
             hits = [f for r in report.rules for f in r.findings if f.key == want]
